@@ -41,13 +41,13 @@ fn faulty_scenario(c: &Case) -> Scenario {
                 if i >= 30 {
                     break;
                 }
-                sc.cas.push(Ca { parent: Some(parent), key: i, module: c.module, not_after: 86400 * 365, cert_fault: None, versions: vec![mk_ver()], extra_res: None, ta_alt: vec![], sia_under_parent_mft: false });
+                sc.cas.push(Ca { parent: Some(parent), key: i, module: c.module, not_after: 86400 * 365, cert_fault: None, versions: vec![mk_ver()], extra_res: None, ta_alt: vec![], sia_under_parent_mft: false, rrdp: None });
                 parent = i;
             }
         }
         6 => {
             let i = sc.cas.len();
-            sc.cas.push(Ca { parent: Some(host_ca), key: i, module: c.module, not_after: 86400 * 365, cert_fault: None, versions: vec![mk_ver()], extra_res: None, ta_alt: vec![], sia_under_parent_mft: true });
+            sc.cas.push(Ca { parent: Some(host_ca), key: i, module: c.module, not_after: 86400 * 365, cert_fault: None, versions: vec![mk_ver()], extra_res: None, ta_alt: vec![], sia_under_parent_mft: true, rrdp: None });
         }
         _ => {}
     }
@@ -58,7 +58,7 @@ fn faulty_scenario(c: &Case) -> Scenario {
 }
 
 fn case(words: &[u16]) -> Case {
-    let p = Profile { max_cas: 8, max_tals: 2, max_objs: 4, versions: 1, fault_16: 1, obj_faults: true, cert_faults: false, pp_faults: false, vary_cfg: true, modules: 3 };
+    let p = Profile { max_cas: 8, max_tals: 2, max_objs: 4, versions: 1, fault_16: 1, obj_faults: true, cert_faults: false, pp_faults: false, vary_cfg: true, modules: 3, rrdp_16: 0, rrdp_repos: 2 };
     let mut sc = single_run(words, &p);
     sc.cfg.unsafe_vrps = [2u8, 1, 0][(words.first().copied().unwrap_or(0) % 3) as usize];
     let mut d = D::new(words);
@@ -161,6 +161,11 @@ pub fn run(ctx: &Ctx, rep: &mut Report, replay: Option<&serde_json::Value>) {
     rep.assume("slots of different CAs never overlap, so the unsafe-VRP filter can only remove items of affected CAs (C08 covers overlapping resources)");
     ctx.shrink_iters.store(100, std::sync::atomic::Ordering::Relaxed);
     if let Some(v) = replay {
+        if v.get("sub").and_then(|s| s.as_str()) == Some("rrdp") {
+            let t: Tagged<RCase> = serde_json::from_value(v.clone()).expect("replay");
+            run_case(ctx, rep, &t.sub, &t.case, rprop);
+            return;
+        }
         let t: Tagged<Case> = serde_json::from_value(v.clone()).expect("replay");
         run_case(ctx, rep, &t.sub, &t.case, prop);
         return;
@@ -174,4 +179,95 @@ pub fn run(ctx: &Ctx, rep: &mut Report, replay: Option<&serde_json::Value>) {
         run_case(ctx, rep, "pairs", &d, |c, i| prop_opt(c, i, true));
     }
     run_prop_par(ctx, rep, "pairs", ctx.tier.pick(200, 4000), 8, || genome(200).prop_map(|w| case(&w)), prop);
+    rep.rule("(rrdp) pairs of runs over identical trees in which every CA is published through one of 2 RRDP repositories with chance 1/2 (rrdp-fallback in {stale, never, new}), from identical pre-states (empty cache, or warmed cache followed by a new RRDP session so that the repository must be fetched again): one clean, one where a chosen RRDP repository answers 500 for the notification / serves garbage as snapshot / lists wrong hashes / cuts the snapshot transfer / answers 404 for everything; same metamorphic oracle: the run succeeds and every item of a CA that is neither published through the broken repository nor a descendant of such a CA is served identically; non-trivial = the broken repository publishes a CA whose chain is intact and an unrelated CA with payload exists");
+    run_prop_par(ctx, rep, "rrdp", ctx.tier.pick(100, 2000), 8, || (genome(200), rrdp_genome(), genome(4)).prop_map(|(w, r, k)| rcase(&w, &r, &k)), rprop);
+}
+
+/// Sub-check "rrdp": the broken repository is an RRDP repository.
+#[derive(serde::Serialize, serde::Deserialize, Clone, Debug)]
+pub struct RCase {
+    pub sc: Scenario,
+    pub repo: usize,
+    /// see World::sabotage_rrdp
+    pub kind: u8,
+    pub warm: bool,
+}
+
+fn rcase(words: &[u16], rwords: &[u16], kwords: &[u16]) -> RCase {
+    let p = Profile { max_cas: 8, max_tals: 2, max_objs: 4, versions: 1, fault_16: 1, obj_faults: true, cert_faults: false, pp_faults: false, vary_cfg: true, modules: 3, rrdp_16: 8, rrdp_repos: 2 };
+    let mut sc = single_run_rrdp(words, rwords, &p, 0);
+    sc.steps[0].fail_modules.clear();
+    sc.cfg.unsafe_vrps = [2u8, 1, 0][(words.first().copied().unwrap_or(0) % 3) as usize];
+    let mut d = D::new(kwords);
+    let repo = d.below(2);
+    let kind = d.below(5) as u8;
+    let warm = d.chance(1, 2);
+    RCase { sc, repo, kind, warm }
+}
+
+fn affected_rrdp(sc: &Scenario, repo: usize) -> BTreeSet<usize> {
+    let mut res = BTreeSet::new();
+    for (i, ca) in sc.cas.iter().enumerate() {
+        if ca.rrdp == Some(repo) {
+            for d in descendants(sc, i) {
+                res.insert(d);
+            }
+        }
+    }
+    res
+}
+
+fn run_world_rrdp(c: &RCase, faulty: bool) -> Result<BTreeSet<MItem>, String> {
+    let mut world = World::new(&c.sc, scratch_base());
+    let step = c.sc.steps[0].clone();
+    let ex = empty_exceptions();
+    if c.warm {
+        world.publish(&step);
+        world.run(false, &ex)?;
+    }
+    world.publish(&step);
+    if c.warm {
+        // in both worlds: without a change on the server the client would not fetch anything
+        world.rrdp_new_session(c.repo);
+    }
+    if faulty {
+        world.sabotage_rrdp(c.repo, c.kind);
+    }
+    let out = world.run(false, &ex)?;
+    Ok(out.payload.items().into_iter().collect())
+}
+
+fn rprop(c: &RCase, info: &mut CaseInfo) -> Verdict {
+    let sc = &c.sc;
+    let aff = affected_rrdp(sc, c.repo);
+    let owners = owner_map(sc);
+    let unaffected_with_payload = (0..sc.cas.len()).any(|i| !aff.contains(&i) && sc.cas[i].versions.iter().any(|v| !v.objs.is_empty()));
+    // the model tells whether a CA of the broken repository is reached at all in the clean run
+    let exp = model_step(sc, &sc.steps[0], &mut ModelState::default());
+    let reached = sc.cas.iter().enumerate().any(|(i, ca)| ca.rrdp == Some(c.repo) && exp.via.contains_key(&i));
+    info.nontrivial = reached && unaffected_with_payload;
+    info.class(format!("rrdp_fault_kind_{}", c.kind));
+    info.class(if c.warm { "warm_cache" } else { "empty_cache" });
+    info.class(format!("rrdp:policy_{}", ["never", "stale", "new"][(sc.cfg.rrdp_fallback as usize).min(2)]));
+    let clean = match run_world_rrdp(c, false) {
+        Ok(x) => x,
+        Err(e) => return Verdict::fail("C41/rrdp/clean-run-failed", e),
+    };
+    let faulty = match run_world_rrdp(c, true) {
+        Ok(x) => x,
+        Err(e) => return Verdict::fail(format!("C41/rrdp/run-fails-on-broken-repository/kind={}", c.kind), format!("RRDP repository {} kind {}: {}", c.repo, c.kind, e)),
+    };
+    for it in clean.symmetric_difference(&faulty) {
+        let in_affected_space = match owners.get(it) {
+            Some((ca, _, _)) => aff.contains(ca),
+            None => true,
+        };
+        if !in_affected_space {
+            return Verdict::fail("C41/rrdp/unrelated-payload-changed", format!("item {:?} of CA {:?} differs between the clean and the faulty run although RRDP repository {} (fault kind {}) publishes neither that CA nor an ancestor; affected CAs {:?}", it, owners.get(it), c.repo, c.kind, aff));
+        }
+    }
+    if clean != faulty {
+        info.class("rrdp:affected_payload_differs");
+    }
+    Verdict::Pass
 }
